@@ -2,6 +2,7 @@ package datagen
 
 import (
 	"strconv"
+	"strings"
 	"time"
 	"unicode/utf8"
 
@@ -187,7 +188,11 @@ func typedFields(s Schema, afterParser bool) []Field {
 	return out
 }
 
-func genLeafPred(t *rapid.T, s Schema) *gen.Pred {
+func genLeafPred(t *rapid.T, s Schema) *gen.Pred { return GenLeafPred(t, s, 10) }
+
+// GenLeafPred draws one comparison; one in crossOneIn compares a field with a literal of
+// another type, so that the values do not convert.
+func GenLeafPred(t *rapid.T, s Schema, crossOneIn int) *gen.Pred {
 	fields := typedFields(s, true)
 	var f Field
 	if len(fields) > 0 && rapid.IntRange(0, 7).Draw(t, "p-exists") != 0 {
@@ -197,7 +202,7 @@ func genLeafPred(t *rapid.T, s Schema) *gen.Pred {
 	}
 	kind := f.Type
 	// Sometimes compare a field with a literal of another type (unparsable values).
-	if rapid.IntRange(0, 9).Draw(t, "p-cross") == 0 {
+	if rapid.IntRange(0, crossOneIn-1).Draw(t, "p-cross") == 0 {
 		kind = rapid.SampledFrom([]string{"str", "int", "dur", "bytes", "ip"}).Draw(t, "p-crosskind")
 	}
 	cmpOps := []string{"==", "!=", ">", ">=", "<", "<="}
@@ -332,12 +337,18 @@ func genParserStage(t *rapid.T, s Schema) (gen.Stage, bool) {
 			`^(?P<addr>[0-9.]+) `,
 			`(?P<user>alice|bob) (\S+) (?P<size>\S+)`,
 		}).Draw(t, "regexp")
+		if rapid.IntRange(0, 2).Draw(t, "built-regexp") == 0 {
+			re = GenExtractRegexp(t, []string{"addr", "user", "status", "size", "method", "path"}, "regexp")
+		}
 		return gen.Stage{Kind: "regexp", Regex: re}, true
 	case "packed":
 		return gen.Stage{Kind: "unpack"}, true
 	case "plain":
 		if rapid.IntRange(0, 2).Draw(t, "plain-regexp") == 0 {
 			re := rapid.SampledFrom([]string{`(?P<first>\w+)`, `(?P<num>\d+)`, `(?P<verb>GET|POST) `, `^(?P<head>\S+) (?P<next>\S+)`}).Draw(t, "regexp")
+			if rapid.Bool().Draw(t, "built-regexp") {
+				re = GenExtractRegexp(t, []string{"first", "num", "verb", "head", "next"}, "regexp")
+			}
 			return gen.Stage{Kind: "regexp", Regex: re}, true
 		}
 	}
@@ -651,4 +662,42 @@ func (l RapidLayout) Sep(must bool) string {
 // Raw implements gen.Layout.
 func (l RapidLayout) Raw() bool {
 	return l.RawOK && rapid.IntRange(0, 3).Draw(l.T, "raw") == 0
+}
+
+// GenExtractRegexp builds the expression of a regexp stage out of pieces: named groups that
+// always take part in a match, named groups inside an optional part or one branch of an
+// alternation (they may stay out of a successful match and then extract ""), unnamed groups
+// and literals. Every name is used once.
+func GenExtractRegexp(t *rapid.T, names []string, label string) string {
+	names = rapid.Permutation(names).Draw(t, label+"-names")
+	next := func() string {
+		n := names[0]
+		names = names[1:]
+		return n
+	}
+	classes := []string{`\w+`, `\S+`, `-?\d+`, `[a-z]+`, `[A-Z]+`, `[0-9.]+`, `[^" ]*`}
+	class := func() string { return rapid.SampledFrom(classes).Draw(t, label+"-class") }
+	var sb strings.Builder
+	if rapid.IntRange(0, 3).Draw(t, label+"-anchor") == 0 {
+		sb.WriteString("^")
+	}
+	n := rapid.IntRange(1, 3).Draw(t, label+"-pieces")
+	for i := 0; i < n && len(names) >= 2; i++ {
+		if i > 0 {
+			sb.WriteString(rapid.SampledFrom([]string{" ", " ", "", `\s+`, `.*?`}).Draw(t, label+"-sep"))
+		}
+		switch rapid.IntRange(0, 5).Draw(t, label+"-piece") {
+		case 0, 1:
+			sb.WriteString("(?P<" + next() + ">" + class() + ")")
+		case 2:
+			sb.WriteString("( (?P<" + next() + ">" + class() + "))?")
+		case 3:
+			sb.WriteString("(?P<" + next() + ">" + class() + ")?")
+		case 4:
+			sb.WriteString("(?:(?P<" + next() + ">" + class() + ")|(?P<" + next() + ">" + class() + "))")
+		case 5:
+			sb.WriteString("(" + class() + ")")
+		}
+	}
+	return sb.String()
 }
